@@ -5,7 +5,7 @@ Require GenProofs_FrameMeas.
 Require Pauli Sem Uniform RefFold Loops.
 Require Import Stab Act Spec SpecProofs GF2 Gen_GateTable Gen_Frame GenProofs_Frame.
 Require GenProofs_TabMeas.
-Require Run FrameRun FrameComplete Collapse Refine.
+Require Run FrameRun FrameComplete RunComplete Collapse Refine.
 
 (* (1) Tie G: every unitary FrameSimulator routine (translated from frame_simulator.inl) equals the documented gate action
        with the sign dropped, on frames of any size and any target list; every fixed unitary of the table is dispatched
@@ -144,3 +144,12 @@ Theorem C02_reference_run_exists :
 Proof. exact FrameComplete.sim_run_exists. Qed.
 Print Assumptions C02_frame_sampler_reports_exactly_the_legal_records. Print Assumptions C02_frame_sampler_from_the_zero_state.
 Print Assumptions C02_reference_run_exists.
+
+(* ... hence the bulk (frame) sampler and the single-shot tableau simulator can report the same set of records. *)
+Theorem C02_frame_sampler_and_tableau_simulator_report_the_same_records :
+  forall (n : nat) (l la : list (Run.op * option bool)) (s s' : (Pauli.pauli -> Pauli.pauli) * (Pauli.pauli -> Pauli.pauli)) (Sg : Sem.state),
+  Forall (fun x => FrameRun.ok_op n (fst x)) l -> Run.good n (fst s) (snd s) -> Run.Inv n (fst s) Sg -> Run.sim_run n s l s' ->
+  ((exists g zs, Refine.wf n g /\ Sg g /\ snd (FrameComplete.frunz g zs l) = la) <->
+   (map fst la = map fst l /\ exists s'', Run.sim_run n s la s'')).
+Proof. exact RunComplete.frame_sampler_equals_simulator. Qed.
+Print Assumptions C02_frame_sampler_and_tableau_simulator_report_the_same_records.
